@@ -155,9 +155,15 @@ for _props, _txt in _ENVELOPES:
     for _p in _props:
         CHECKS[_p]['text'] += _txt
 
-NOT_APPLICABLE = {
-    'C18': 'Slepian tapers: irrational eigenproblem solved in C; no exact finite model exists and quantised re-verification would make Python the oracle (a different technique). DESIGN.md section 4.',
+CHECKS['C18'] = {
+    'text': 'No exact finite model exists for the Slepian eigenproblem (irrational, solved by inverse iteration in C), so nothing is model-checked exhaustively: ObsC18.tla holds the domain (N >= 8, 1 <= NW < N/2, k <= 2NW or default) and the clause table, and TLC validates one observation event per call of dpss over N in 8..4096 x 12 (quick) / 21 (thorough) half-bandwidths incl. non-half-integer ones x k in {1, floor(2NW), mid, default}: shape, orthonormality, ratios in (0,1] and non-increasing, ratio = energy fraction in band and A v = lambda v against the DEFINING sinc kernel built from its formula (N <= 1024), leading eigenvalues against an independent eigen-solver (N <= 256: the oracle the statement names), symmetry / antisymmetry, sign convention, and independence from an earlier result that the caller overwrote.',
+    'design_ref': 'DESIGN.md 4',
+    'note': 'Observation events only (category exploration): the specification contributes the domain and the case analysis, the residuals are computed by the driver with numpy. Tolerances: 1e-8, and 1e-5 for the two residuals limited by the single-precision NW handed to the C routine (measured 2e-8 / 2e-7).',
+    'technique': 'TLC-validated observation events against a TLA+ clause table; definition (sinc kernel) as oracle',
+    'category': 'exploration',
 }
+
+NOT_APPLICABLE = {}
 for _p in ['C%02d' % i for i in range(1, 21)]:  # anything not built yet would be listed here
     if _p not in CHECKS and _p not in NOT_APPLICABLE:
         NOT_APPLICABLE[_p] = _PENDING
